@@ -48,7 +48,7 @@ impl Property for C12 {
             knobs: Knobs { max_nodes: 24, max_ops: 12, variant, ..Default::default() },
         };
         match tier {
-            Tier::Quick => vec![mk("clone_node", 16_000, 0), mk("clone_with_prefixes", 200_000, 1), mk("xot_clone", 4_000, 2)],
+            Tier::Quick => vec![mk("clone_node", 60_000, 0), mk("clone_with_prefixes", 500_000, 1), mk("xot_clone", 20_000, 2)],
             Tier::Thorough => vec![mk("clone_node", 600_000, 0), mk("clone_with_prefixes", 2_000_000, 1), mk("xot_clone", 100_000, 2)],
         }
     }
